@@ -1114,5 +1114,12 @@ func sortByName(n string) (Sort, error) {
 	if strings.HasPrefix(n, "U_") {
 		return Sort(n), nil
 	}
+	if strings.HasPrefix(n, "Arr_") {
+		el, err := sortByName(n[4:])
+		if err != nil {
+			return "", err
+		}
+		return ArrSort(SInt, el), nil
+	}
 	return "", fmt.Errorf("unknown sort %q", n)
 }
